@@ -1,7 +1,7 @@
 (* proofs/GenMainProofs.v -- the key predicates of the generated main impl relax `Sized` only on
    types of the family's unsized set (the translated union of what its blocks relaxed), and the
    duplicate-?Sized pass only removes bounds. *)
-From Coq Require Import List String Bool Arith.
+From Coq Require Import List String Ascii Bool Arith.
 Import ListNotations.
 From DI Require Import Syntax Bounds Subs Group Search Gen GenMain.
 From DI.proofs Require Import Basics.
@@ -79,4 +79,75 @@ Proof.
         right. exists (Node l (bt :: bs)). split; [left; reflexivity|]. subst pr.
         cbn [pred_sub]. repeat split. apply incl_refl. }
   intros pr H. apply G in H. destruct H as [[]|H]; exact H.
+Qed.
+
+
+(* ---- the items of the main impl ---- *)
+
+(* the value an item is given: the expression of a const, the type of an associated type, the
+   body of a function (the last child in all three cases) *)
+Definition item_value (it : term) : option term := List.last (map Some (tkids it)) None.
+
+Definition is_forwarder (hb : term) (n : string) (v : term) : Prop :=
+  v = fwd_expr hb n \/ v = fwd_type hb n \/ exists inputs, v = fwd_body hb n inputs.
+
+Lemma last_app_single {A} (l : list A) x d : List.last (l ++ [x]) d = x.
+Proof.
+  induction l as [|y l IH]; [reflexivity|]. simpl.
+  destruct (l ++ [x]) eqn:E; [destruct l; discriminate|exact IH].
+Qed.
+
+Lemma item_value_app l ks v : item_value (Node l (ks ++ [v])) = Some v.
+Proof. unfold item_value. cbn [tkids]. rewrite map_app. cbn [map]. apply last_app_single. Qed.
+
+(* trait mode: one item per item of the trait definition, in its order, with its name and no
+   visibility; each is given the helper trait's item of the same name, through
+   `<Self as Helper<..>>::name` *)
+Theorem main_items_trait_mode tdef titems idx fb g items p :
+  (match fb with Node _ [_; tr; _; _; _] => opt_kid tr = Some p | _ => False end) ->
+  gen_main_items tdef titems idx fb g = Some (Node (K "Items" "") items) ->
+  exists hb, helper_bound idx fb (abg_idents g) = Some hb /\
+    Forall2 (fun ti it =>
+               ld (tlabel it) = String ";"%char (ld (tlabel ti)) /\
+               exists v, item_value it = Some v /\ is_forwarder hb (ld (tlabel ti)) v)
+            (tkids titems) items.
+Proof.
+  intros Htr H. unfold gen_main_items in H.
+  destruct fb as [lb [|gen [|tr [|self [|wh [|[li its] [|]]]]]]]; try discriminate; try contradiction.
+  destruct (helper_bound idx _ (abg_idents g)) as [hb|] eqn:Ehb; [|discriminate].
+  rewrite Htr in H.
+  destruct tdef as [lt [|[lg tps] [|x [|]]]]; try discriminate.
+  destruct (is_kind "Trait" lt); [|discriminate].
+  destruct (zip_params tps (last_args p) _) as [m|]; [|discriminate].
+  inversion H as [Hitems]. clear H. subst items. exists hb. split; [reflexivity|].
+  induction (tkids titems) as [|ti tis IH]; cbn [map]; [constructor|]. constructor; [|exact IH].
+  destruct (is_kind "TIConst" (tlabel ti)).
+  { split; [reflexivity|]. eexists. split; [apply item_value_app|]. left. reflexivity. }
+  destruct (is_kind "TIType" (tlabel ti)).
+  { split; [reflexivity|]. eexists. split; [apply (item_value_app _ [])|]. right. left. reflexivity. }
+  split; [reflexivity|]. eexists. split; [apply item_value_app|]. right. right. eexists. reflexivity.
+Qed.
+
+(* inherent mode: the first block's items with their labels (visibility and name) as written;
+   each is given the helper trait's item of the same name *)
+Theorem main_items_inherent_mode tdef titems idx fb g items :
+  (match fb with Node _ [_; tr; _; _; _] => opt_kid tr = None | _ => False end) ->
+  gen_main_items tdef titems idx fb g = Some (Node (K "Items" "") items) ->
+  exists hb its, helper_bound idx fb (abg_idents g) = Some hb /\
+    (match fb with Node _ [_; _; _; _; Node _ its'] => its' = its | _ => False end) /\
+    Forall2 (fun it0 it =>
+               tlabel it = tlabel it0 /\
+               exists v, item_value it = Some v /\ is_forwarder hb (item_name (ld (tlabel it0))) v)
+            its items.
+Proof.
+  intros Htr H. unfold gen_main_items in H.
+  destruct fb as [lb [|gen [|tr [|self [|wh [|[li its] [|]]]]]]]; try discriminate; try contradiction.
+  destruct (helper_bound idx _ (abg_idents g)) as [hb|] eqn:Ehb; [|discriminate].
+  rewrite Htr in H. inversion H as [Hitems]. clear H. subst items. exists hb, its. split; [reflexivity|]. split; [reflexivity|].
+  clear Ehb. induction its as [|it its' IH]; cbn [map]; [constructor|]. constructor; [|exact IH].
+  destruct (is_kind "IConst" (tlabel it)).
+  { split; [reflexivity|]. eexists. split; [apply item_value_app|]. left. reflexivity. }
+  destruct (is_kind "IType" (tlabel it)).
+  { split; [reflexivity|]. eexists. split; [apply (item_value_app _ [])|]. right. left. reflexivity. }
+  split; [reflexivity|]. eexists. split; [apply item_value_app|]. right. right. eexists. reflexivity.
 Qed.
